@@ -1,19 +1,21 @@
 # C09 — every basis projection and deconvolution-operator element equals its
 # defining Abel integral (basex, daun degrees 0-3, rbasex orders 0..8, dasch).
 #
-#   theorems       coq/props/C09.v (daun degree 0 and 1 entries, onion-peeling W =
+#   theorems       coq/props/C09.v (daun degree 0, 1, 2 entries, onion-peeling W =
 #                  transposed degree-0 matrix, two_point / three_point operator entries of
-#                  every row i >= 1), all indices and sizes, about the formulas that
-#                  tools/translate/formulas_basis.py regenerates from abel/dasch.py and
-#                  abel/daun.py on every run (coq/gen/FormulasBasis.v);
+#                  every row i >= 1, rbasex orders 0..8), all indices and sizes, about the
+#                  formulas that tools/translate/formulas_basis.py regenerates from
+#                  abel/dasch.py, abel/daun.py, abel/rbasex.py on every run
+#                  (coq/gen/FormulasBasis.v);
 #   tie            (a) translation validation: every generated definition evaluated inside
 #                  Coq (Interval) at sampled arguments must enclose the float the Python
 #                  code returns there; (b) the intermediate representation evaluated in
 #                  binary64 in source order is compared with the implementation's matrices at
 #                  all entries for n <= 24 (index structure of the assembly);
 #   instances      per-instance machine-checked goals |entry - 2*RInt(...)| <= tol by the
-#                  `integral` tactic for daun degree 2, the Hermite functions of degree 3,
-#                  rbasex orders 0..8, and basex rho_k by `interval` (labelled instances);
+#                  `integral` tactic for the Hermite functions of daun degree 3 (and a few
+#                  entries of daun 1/2 and rbasex), basex rho_k by `interval` (labelled
+#                  instances);
 #   search         scipy quadrature of the defining integrals against the implementation
 #                  (tools/oracle/c09_quad.py), independent of model and translator.
 from __future__ import annotations
@@ -92,6 +94,14 @@ def run_goal_files(prefix, goals, per_file=8, timeout=900):
     returns (n_ok, failed tags, errors)."""
     import re
     files = []
+    cdir = os.path.join(vlib.COQ, 'cases')
+    if os.path.isdir(cdir):
+        for f in os.listdir(cdir):          # stale files of earlier runs
+            if f.startswith(prefix + '_'):
+                try:
+                    os.remove(os.path.join(cdir, f))
+                except OSError:
+                    pass
     for k in range(0, len(goals), per_file):
         chunk = goals[k:k + per_file]
         text = TV_HEADER + '\n'.join(lemma(k + m, st, tac) for m, (tag, st, tac) in enumerate(chunk))
@@ -292,7 +302,7 @@ def inst_goals(fb, D, rng, quick):
     A1 = dn._bs_daun(n, 1)
     prs = [(0, 0), (1, 0), (1, 1), (2, 1), (2, 2), (3, 1), (5, 4), (5, 5), (n - 1, n - 1), (n - 1, 0), (n - 1, n - 2)]
     prs += [tuple(sorted((int(a), int(b)), reverse=True)) for a, b in rng.integers(0, n, (2 if quick else 25, 2))]
-    for j, i in prs:
+    for j, i in (prs[:5] + prs[8:9] if quick else prs):
         tol = up_pow2(2.0 ** -30 * max(1.0, float(j + 1) ** 3 * 1e-4))
         add('daun2[%d][%d]' % (j, i), float(A2[j, i]), 'Abel (quad2 %d) (%d + 1) %d' % (j, j, i), tol)
     for j, i in prs[:4]:
@@ -308,7 +318,7 @@ def inst_goals(fb, D, rng, quick):
         for idx, k in enumerate(range(0, 9, 1 if odd else 2)):
             if odd and k % 2 == 0:
                 continue
-            prs = [(1, 1), (2, 1), (2, 2), (Rm, Rm), (Rm, 3)]
+            prs = [(1, 1), (2, 1), (Rm, 3)] if quick else [(1, 1), (2, 1), (2, 2), (Rm, Rm), (Rm, 3)]
             prs += [tuple(int(x) for x in sorted(rng.integers(1, Rm + 1, 2), reverse=True)) for _ in range(0 if quick else 5)]
             for Rc, r in prs:
                 add('rbasex[%d][%d,%d]' % (k, Rc, r), float(P[idx][Rc, r]), 'rbasex_proj %d %d %d' % (k, Rc, r),
@@ -628,8 +638,7 @@ def run(ctx):
                    samples=(tvs[:3] + ins[:3]),
                    input_distribution=dict(structure_sizes=list(sizes),
                                            tv_goals=len(tvs), instance_goals=len(ins), search_evaluations=n_eval),
-                   instances_only=['daun degree 2', 'daun degree 3 (Hermite p/q; the spline solve only swept)',
-                                   'rbasex orders 0..8', 'basex rho_k'],
+                   instances_only=['daun degree 3 (Hermite p/q; the spline solve only swept)', 'basex rho_k'],
                    swept_only=['basex projections chi_k', 'daun degree 3 cardinal spline (solve_banded)',
                                'two_point axis entries D[0][0], D[0][1] are a convention (compared with the documented constants)'],
                    exhaustive=False)
@@ -654,10 +663,11 @@ def run(ctx):
                           json.dumps(goal_err[:3]))
     ctx.notes += notes
     ctx.assumptions += [
-        'theorems (all indices/sizes): daun degree 0 and 1 entries, onion-peeling W, two_point and three_point entries of rows i >= 1; '
-        'they are about coq/gen/FormulasBasis.v, regenerated from abel/daun.py and abel/dasch.py by a fail-closed translator on every run',
-        'per-instance machine-checked goals (labelled instances, not the unbounded claim): daun degree 2, Hermite p/q of degree 3, '
-        'rbasex orders 0..8 (tolerance 2^-30 x scale), basex rho_k',
+        'theorems (all indices/sizes): daun degree 0, 1, 2 entries, onion-peeling W, two_point and three_point entries of rows i >= 1, '
+        'rbasex orders 0..8 for 1 <= r <= R; they are about coq/gen/FormulasBasis.v, regenerated from abel/daun.py, abel/dasch.py, '
+        'abel/rbasex.py by a fail-closed translator on every run',
+        'per-instance machine-checked goals (labelled instances, not the unbounded claim): Hermite p/q of daun degree 3, basex rho_k; '
+        'additional instances of daun 1/2 and rbasex tie the floats of the implementation to the integrals (tolerance 2^-30 x scale)',
         'only swept numerically (scipy quad): basex projections chi_k (infinite support, Gaussian moments), the clamped-spline solve of '
         'daun degree 3',
         'the Dasch axis row i = 0 is a convention of the methods and is not compared with an integral',
